@@ -11,7 +11,8 @@ import (
 )
 
 // Self-test of the kit (not a property check):
-//   cd /verif && go test -tags verif ./evmkit
+//
+//	cd /verif && go test -tags verif ./evmkit
 func TestKit(t *testing.T) {
 	Silence()
 	root := filepath.Join(os.Getenv("VERIF_ROOT"), ".work", "evmkit-test")
